@@ -228,4 +228,107 @@ example :
   simp [routeStmt, route, rangeRule, rangeLit, findTableIndexes, adjust, makeList, interList,
     List.range, List.range.loop, proxyAffected, mergeExecResult, mergeStep, matching, eval, Cmp.holds]
 
+
+/-! ### The calendar rules -/
+
+open GaeaVerif.RouteCal GaeaVerif.ShardGo
+
+/-- `TablesOK` where every stored key is one of the values `V` a row can hold. -/
+structure TablesOKOn (V : Int → Prop) (r : Rule) (pv : Int → Int) (tbl : Int → List Row) : Prop
+    extends TablesOK r pv tbl where
+  valid : ∀ i ∈ r.idxs, ∀ row ∈ tbl i, V row.key
+
+theorem matching_zero_of_not_routed_on (V : Int → Prop) (r : Rule) (pv : Int → Int) (tbl : Int → List Row) (c : Cond)
+    (ht : TablesOKOn V r pv tbl) (hl : LitsOKOn V r pv (shardLits c)) (l : List Int)
+    (hr : route r c = some (true, l)) (i : Int) (hi : i ∈ r.idxs) (hnot : i ∉ l) :
+    matching c (tbl i) = 0 := by
+  unfold matching
+  rw [List.length_eq_zero_iff, List.filter_eq_nil_iff]
+  intro row hrow htrue
+  simp only [beq_iff_eq] at htrue
+  have hp := ht.placed i hi row hrow
+  have hrowok : RowOK r pv row.key :=
+    ⟨ht.sorted, by rw [hp]; exact hi, by rw [hp]; exact (ht.bounds i hi).1, by rw [hp]; exact (ht.bounds i hi).2⟩
+  have := (route_inv_on V r pv row.key row.env hrowok (ht.valid i hi row hrow) c hl l hr).2 htrue
+  rw [hp] at this
+  exact hnot this
+
+/-- **`exec_sum` relative to the values `V` a row can hold** (`exec_sum` is the
+    case `V = everything`): the form the calendar rules need. -/
+theorem exec_sum_on (V : Int → Prop) (r : Rule) (pv : Int → Int) (tbl : Int → List Row) (c : Cond)
+    (ht : TablesOKOn V r pv tbl) (hl : LitsOKOn V r pv (shardLits c)) (routed : List Int)
+    (h : routeStmt r (some c) = some routed) :
+    proxyAffected c tbl routed = (r.idxs.map fun i => matching c (tbl i)).sum := by
+  unfold proxyAffected
+  rw [mergeExec_affected]
+  simp only [List.map_map]
+  have hm : ((fun x : ExecResult => x.affected) ∘ fun i => ({ status := 0, affected := matching c (tbl i), insertId := 0 } : ExecResult))
+      = fun i => matching c (tbl i) := by funext i; rfl
+  rw [hm]
+  simp only [routeStmt] at h
+  cases hr : route r c with
+  | none => simp [hr] at h
+  | some res =>
+    obtain ⟨has, l⟩ := res
+    simp only [hr, Option.some.injEq] at h
+    cases has with
+    | false => simp at h; subst h; rfl
+    | true =>
+      simp only [↓reduceIte] at h; subst h
+      by_cases hne : ∃ i ∈ r.idxs, ∃ row, row ∈ tbl i
+      · obtain ⟨i, hi, row, hrow⟩ := hne
+        have hp := ht.placed i hi row hrow
+        have hrowok : RowOK r pv row.key :=
+          ⟨ht.sorted, by rw [hp]; exact hi, by rw [hp]; exact (ht.bounds i hi).1, by rw [hp]; exact (ht.bounds i hi).2⟩
+        have hs := (route_inv_on V r pv row.key row.env hrowok (ht.valid i hi row hrow) c hl l hr).1
+        rw [interList_eq_filter _ _ ht.sorted hs]
+        apply sum_filter_of_zero
+        intro j hj hnot
+        simp at hnot
+        exact matching_zero_of_not_routed_on V r pv tbl c ht hl l hr j hj hnot
+      · have hz : ∀ i ∈ r.idxs, matching c (tbl i) = 0 := by
+          intro i hi
+          have : tbl i = [] := by
+            cases ht' : tbl i with
+            | nil => rfl
+            | cons a as => exact absurd ⟨i, hi, a, by simp [ht']⟩ hne
+          simp [matching, this]
+        have h1 : ∀ (l' : List Int), (∀ i ∈ l', i ∈ r.idxs) → (l'.map fun i => matching c (tbl i)).sum = 0 := by
+          intro l' hl'
+          induction l' with
+          | nil => rfl
+          | cons a as ih => simp [hz a (hl' a (by simp)), ih (fun i hi => hl' i (by simp [hi]))]
+        rw [h1 _ (fun i hi => (interList_mem_left _ _ i hi).1), h1 _ (fun i hi => hi)]
+
+/-- **C05 (affected rows) for the calendar rules, no residual hypothesis beyond
+    the time zone**: for a `date_year` / `date_month` / `date_day` rule with any
+    ascending period list, tables that hold the rows the rule places there
+    (DATETIME column: valid date-times; integer column: timestamps of a year
+    0 … 9999 in the zone `off` seconds east of UTC) and an accepted UPDATE/DELETE
+    whose sharding-column literals are accepted spellings / such timestamps, the
+    reported count is the number of rows the statement selects in all tables. -/
+theorem calendar_exec_sum (k : CalKind) (idxs : List Int) (hs : Sorted idxs) (off : Int) :
+    (∀ (tbl : Int → List Row) (c : Cond) (routed : List Int),
+      (∀ i ∈ idxs, ∀ row ∈ tbl i, VStr row.key ∧ pvStr k row.key = i) →
+      StrCond k (ShardPlace.civilOfUnix off) (ShardPlace.clockOfUnix off) c →
+      routeStmt (calRule idxs) (some c) = some routed →
+      proxyAffected c tbl routed = (idxs.map fun i => matching c (tbl i)).sum) ∧
+    (∀ (tbl : Int → List Row) (c : Cond) (routed : List Int),
+      (∀ i ∈ idxs, ∀ row ∈ tbl i, VUnix (ShardPlace.civilOfUnix off) row.key ∧
+        pvUnix k (ShardPlace.civilOfUnix off) row.key = i) →
+      UnixCond k (ShardPlace.civilOfUnix off) (ShardPlace.clockOfUnix off) c →
+      routeStmt (calRule idxs) (some c) = some routed →
+      proxyAffected c tbl routed = (idxs.map fun i => matching c (tbl i)).sum) := by
+  refine ⟨?_, ?_⟩
+  · intro tbl c routed htbl ⟨ss, hss, hlits⟩ h
+    exact exec_sum_on VStr (calRule idxs) (pvStr k) tbl c
+      ⟨⟨hs, fun i hi row hrow => (htbl i hi row hrow).2, fun i hi => sorted_bounds idxs hs i hi⟩,
+        fun i hi row hrow => (htbl i hi row hrow).1⟩
+      (hlits ▸ str_litsOK k idxs _ _ ss hss) routed h
+  · intro tbl c routed htbl ⟨vs, hvs, hlits⟩ h
+    exact exec_sum_on (VUnix (ShardPlace.civilOfUnix off)) (calRule idxs) (pvUnix k (ShardPlace.civilOfUnix off)) tbl c
+      ⟨⟨hs, fun i hi row hrow => (htbl i hi row hrow).2, fun i hi => sorted_bounds idxs hs i hi⟩,
+        fun i hi row hrow => (htbl i hi row hrow).1⟩
+      (hlits ▸ unix_litsOK k idxs _ _ (fixedZone_ok off) vs hvs) routed h
+
 end GaeaVerif.C05
